@@ -149,35 +149,39 @@ func main() {
 			a := ev.M{"ran": te.Num(ran), "nas": ev.Ints(n), "plmn": ev.Ints(curPlmn)}
 			r.emit("GetInitialUEMessage", a, func() ([]byte, error) { return tglib.GetInitialUEMessage(ran, n, "") })
 		}
-		for _, amf := range amfIds {
-			amf, ran := amf, pick(ranIds)
+		for ai, amf := range amfIds {
+			// every wrapper meets every identifier of both lists: the j-th draw of round ai is element ai+j (no random picks)
+			nj := 0
+			nextAmf := func() int64 { nj++; return amfIds[(ai+nj)%len(amfIds)] }
+			nextRan := func() int64 { return ranIds[(ai+2*nj)%len(ranIds)] }
+			amf, ran := amf, ranIds[ai%len(ranIds)]
 			n := nas(nasLens[rg.Intn(len(nasLens))])
 			a := A(amf, ran)
 			a["nas"], a["plmn"] = ev.Ints(n), ev.Ints(curPlmn)
 			r.emit("GetUplinkNASTransport", a, func() ([]byte, error) { return tglib.GetUplinkNASTransport(amf, ran, n) })
-			amf2, ran2 := pick(amfIds), pick(ranIds)
+			amf2, ran2 := nextAmf(), nextRan()
 			r.emit("GetInitialContextSetupResponse", A(amf2, ran2), func() ([]byte, error) { return tglib.GetInitialContextSetupResponse(amf2, ran2) })
-			amf3, ran3, psi := pick(amfIds), pick(ranIds), pick(psis)
+			amf3, ran3, psi := nextAmf(), nextRan(), pick(psis)
 			ip := [4]byte{byte(rg.Intn(256)), byte(rg.Intn(256)), byte(rg.Intn(256)), byte(rg.Intn(256))}
 			a3 := A(amf3, ran3)
 			a3["psi"], a3["ip"] = te.Num(psi), ev.Ints(ip[:])
 			r.emit("GetPDUSessionResourceSetupResponse", a3, func() ([]byte, error) {
 				return tglib.GetPDUSessionResourceSetupResponse(amf3, ran3, psi, ip4(ip))
 			})
-			amf4, ran4, psi4 := pick(amfIds), pick(ranIds), pick(psis)
+			amf4, ran4, psi4 := nextAmf(), nextRan(), pick(psis)
 			ip2 := [4]byte{byte(rg.Intn(256)), byte(rg.Intn(256)), 0, 255}
 			a4 := A(amf4, ran4)
 			a4["psi"], a4["ip"] = te.Num(psi4), ev.Ints(ip2[:])
 			r.emit("GetInitialContextSetupResponseForServiceRequest", a4, func() ([]byte, error) {
 				return tglib.GetInitialContextSetupResponseForServiceRequest(amf4, ran4, psi4, ip4(ip2))
 			})
-			amf5, ran5, psi5 := pick(amfIds), pick(ranIds), pick(psis)
+			amf5, ran5, psi5 := nextAmf(), nextRan(), pick(psis)
 			a5 := A(amf5, ran5)
 			a5["psi"] = te.Num(psi5)
 			r.emit("GetPDUSessionResourceReleaseResponse", a5, func() ([]byte, error) {
 				return tglib.GetPDUSessionResourceReleaseResponse(amf5, ran5, psi5)
 			})
-			amf6, ran6 := pick(amfIds), pick(ranIds)
+			amf6, ran6 := nextAmf(), nextRan()
 			var lst []int64
 			for i := rg.Intn(4); i > 0; i-- {
 				lst = append(lst, int64(rg.Intn(256)))
